@@ -1041,6 +1041,9 @@ func check() int {
 		if prop == "C08" {
 			recycle = 20 // process-wide decoder caches are filled on first use: fresh processes matter here
 		}
+		if prop == "C19" {
+			recycle = 10 // likewise for tables built on the first request of a process
+		}
 		runBatch(raceBin, fa, raceBudget, true, rw, recycle, 0)
 	}
 	// A run whose digest differs on re-execution is not believed (it is discarded from every count), but it
